@@ -61,7 +61,7 @@ func main() {
 		out.Emit(line, r)
 		out.Case(line, nontrivial)
 		kind := strings.Fields(line)[0]
-		if kind == "vb" || kind == "vt" || kind == "sig" {
+		if kind == "vb" || kind == "vt" || kind == "sig" || kind == "vc" {
 			out.Count(kind + ":" + r)
 		} else {
 			out.Count(kind)
